@@ -1,4 +1,6 @@
 //! Independent PDF producer (oracle side). Never calls the library's serialiser, encoders or crypto.
+pub mod crypt;
+pub mod docs;
 pub mod file;
 pub mod filters;
 pub mod val;
